@@ -158,7 +158,7 @@ Qed.
 
 (* ---------------------------------------------------------------- data frames *)
 
-Definition peer (masked : bool) : scfg := mkScfg masked false 0 0.
+Definition peer (masked : bool) : scfg := mkScfg masked false 0 0 no_avail.
 
 Lemma header_ok_data : forall (masked in_frag fin : bool) op l7,
     (if in_frag then op = 0 else op = 1 \/ op = 2) ->
